@@ -195,15 +195,16 @@ func runHarness(prog *interp.Program, spec HarnessSpec, tier string, trace bool,
 		solverMs = 60000
 	}
 	cfg := interp.Config{
-		Harness:    spec.Name,
-		Entry:      entryOf(spec),
-		Workers:    workers,
-		StepBudget: spec.Steps,
-		PathBudget: spec.Paths[tier],
-		SolverMs:   solverMs,
-		Params:     params,
-		Trace:      trace,
-		MaxViol:    50,
+		Harness:     spec.Name,
+		Entry:       entryOf(spec),
+		Workers:     workers,
+		StepBudget:  spec.Steps,
+		PathBudget:  spec.Paths[tier],
+		SolverMs:    solverMs,
+		Params:      params,
+		Trace:       trace,
+		MaxViol:     50,
+		KeepScripts: 6,
 	}
 	if trace {
 		cfg.Workers = 1
@@ -261,6 +262,13 @@ func runProperty(prop, tier, only string) int {
 	// native replay of counterexamples and vacuity witnesses
 	mismatch := doReplays(prop, results, tier)
 
+	// the other solvers decide a sample of the verdict queries again
+	cross := crossCheck(prop, results)
+	for _, d := range cross.Disagree {
+		fmt.Printf("INCONCLUSIVE: solver disagreement on a query z3 answered unsat: %s\n", d)
+		inconclusive = true
+	}
+
 	known := loadKnown()
 	violations := 0
 	knownSeen := map[string]bool{}
@@ -285,7 +293,7 @@ func runProperty(prop, tier, only string) int {
 			}
 		}
 	}
-	writeEvidence(prop, tier, results, violations, knownSeen, time.Since(start).Seconds(), inconclusive || mismatch)
+	writeEvidence(prop, tier, results, violations, knownSeen, time.Since(start).Seconds(), inconclusive || mismatch, cross)
 	for _, l := range violLines {
 		fmt.Println(l)
 	}
